@@ -125,6 +125,31 @@ def scenarios():
             failures.append({"case": "schema", "what": "relative operation_info names of a sub-package service are not resolved against the method's package", "got": got, "want": want})
     except Exception as e:      # noqa
         failures.append({"case": "schema", "what": "an API with an LRO service in a sub-package cannot be built", "error": repr(e)[:300]})
+    # the API's own operation.proto (holding the result / metadata messages) next to api-core's `operation` module: the future is still built through
+    # the wrapper module, i.e. no emitted service module binds one name to two imports or uses an unbound qualifier
+    opf = G.new_file("acme/zoo/v1/operation.proto", "acme.zoo.v1")
+    G.add_message(opf, "TrainResult", [G.F("x", 1, G.T.TYPE_STRING)])
+    G.add_message(opf, "TrainMeta", [G.F("pct", 1, G.T.TYPE_INT32)])
+    kf = G.new_file("acme/zoo/v1/keeper.proto", "acme.zoo.v1", deps=G.STD_DEPS + ["acme/zoo/v1/operation.proto"])
+    G.add_message(kf, "TrainRequest", [G.F("name", 1, G.T.TYPE_STRING)])
+    G.add_method(G.add_service(kf, "Keeper"), "Train", ".acme.zoo.v1.TrainRequest", ".google.longrunning.Operation", http=("post", "/v1/{name=a/*}:train"), body="*",
+                 lro=("TrainResult", "TrainMeta"))
+    n += 1
+    try:
+        import ast as _ast
+        from props.C12_native import import_bindings_unique
+        from props.C01_native import undefined_names
+        _, zres = G.generate([opf, kf], "autogen-snippets=false,transport=grpc+rest")
+        zf = []
+        import_bindings_unique(zres, zf, "own operation.proto")
+        for f_ in zres.file:
+            if f_.name.endswith(".py") and "/services/" in f_.name:
+                und = undefined_names(_ast.parse(f_.content))
+                if und:
+                    zf.append({"case": "own operation.proto: names used but bound nowhere", "file": f_.name, "names": und[:5]})
+        failures += [dict(x, what=x.get("case")) for x in zf]
+    except Exception as e:      # noqa
+        failures.append({"case": "schema", "what": "an API with its own operation.proto and an LRO cannot be generated", "error": repr(e)[:300]})
     api, res = G.generate(files(collide=True), "autogen-snippets=false")
     svc = api.services[f"{PKG}.Lab"]
     for rpc, (r, mt, rcls, mcls) in CASES.items():
